@@ -64,8 +64,9 @@ claim("C06",
       "TLC checks the implementation-shaped Chain model (reply_count / index / done bookkeeping) exhaustively "
       "over all call-flag sequences x conforming reply scripts x trailing frames x groupings of frames into "
       "reads: one ordered write, yielded = owed, ends exactly, never reads when nothing is owed. TLC-enumerated "
-      "behaviours are replayed against Connection::chain_call/append/send and every execution (all 3^1..3^6 flag "
-      "sequences, random chains) is validated by TLC against ChainTrace (which extends Framing).",
+      "behaviours are replayed against Connection::chain_call/append/send and every execution (all 4^1..4^5 sequences "
+      "of the four flag combinations, random chains, replies reported as general errors, abandoned streams) is validated "
+      "by TLC against ChainTrace (which extends Framing).",
       TRUST + "server scripts are conforming; frame classes from isolated decodes",
       "TLA+ model checking (TLC) of Chain + TLC trace validation of recorded chain/stream executions",
       "4/C06")
@@ -84,7 +85,9 @@ SRV = ("The implementation-shaped Server model (accept queue, connection and str
        "TLC-simulated behaviours and seeded random schedules, and every execution is validated by TLC against "
        "the property-level ServerTrace spec. ")
 claim("C08", SRV + "C08: each call reaches the service exactly once and in order, only what a connection is owed is "
-      "written on it, in order, nothing for oneway; completeness at quiescence.",
+      "written on it, in order, nothing for oneway; completeness at quiescence; on connections whose transport fails a "
+      "write (for good or once, having handed over nothing, part or all of the bytes) a reply that got through is never "
+      "written again and nothing follows a torn frame.",
       TRUST + "replies carry (connection, call#) so misdelivery is observable",
       "TLA+ model checking (TLC) of Server + TLC trace validation of hand-polled Server::run executions", "4/C08")
 claim("C09", SRV + "C09: with faults injected on designated connections (EOF mid-frame/mid-burst, read error, write error "
@@ -98,9 +101,12 @@ claim("C10", SRV + "C10: stream items in order with the service's continues flag
       TRUST + "stream items are released by the driver at arbitrary moments",
       "TLA+ model checking (TLC) of Server with parked streams + TLC trace validation", "4/C10")
 claim("C18", SRV + "C18: history counters FairWindow / FairBound are invariants of the model (and the start=last mutant "
-      "violates them); the order in which calls reach the real service is validated against the same counters.",
+      "violates them); RoundRobinSet.tla checks the same counters for the round robin alone under any readiness pattern "
+      "and any sequence of pushes / swap_removes (4 connections, 5 in thorough), and proofs/RoundRobin.tla carries a "
+      "TLAPS-checked proof of the first sentence of the property for any number of connections; the order in which "
+      "calls reach the real service is validated against the same counters.",
       TRUST + "calls are injected as whole frames in the fairness scenarios (readiness = availability)",
-      "TLA+ model checking (TLC) with fairness history variables + TLC trace validation of service call order", "4/C18")
+      "TLA+ model checking (TLC) with fairness history variables, TLAPS proof of the rotating scan for any N + TLC trace validation of service call order", "4/C18")
 claim("C04",
       "The classification of a reply is specified as a decision table over five isolated observations of the frame "
       "(ReplyClassify.tla); TLC checks that the table is total, that the code's three-way decode conforms and never maps "
